@@ -274,6 +274,29 @@ PROPS["C14"] = dict(
                "sequence space starts)",
 )
 
+PROPS["C11"] = dict(
+    engine="netsim", level="exploration",
+    quick=dict(runs=32000, workers=16, stall_s=180),
+    thorough=dict(budget_s=900, workers=16, stall_s=300),
+    rule="one evaluation = one seeded history of 10-120 steps against one real stack with up to six UDP sockets on distinct ports (IPv4 bound to a "
+         "specific address / wildcard, dual-stack IPv6 wildcard, IPv4 and IPv6 connected, unbound sender): datagrams of 0..65507 bytes (boundary and "
+         "uniform lengths, every payload self-identifying) from two peers and two source ports, single arrivals, arrivals whose processing overlaps the "
+         "next step, bursts of 2-40 that overflow the receive buffer, wire duplicates; reads by the simulator and by per-socket reader goroutines racing "
+         "delivery under seeded yields; Shutdown(Read), Close; writes of 0..65540 bytes to IPv4, IPv6 and v4-mapped destinations; non-trivial = at least "
+         "one datagram was read; distinct = distinct event-log hash",
+    expected_probes=["datagrams_read", "dropped_whole", "read_shutdown", "writes", "write_failed"],
+    real=NET_REAL, stubs=NET_STUBS + PEER_STUB, assumptions=NET_ASSUME + [
+        "sockets are on distinct ports here; which socket a datagram reaches is C09's subject",
+        "a datagram must be kept only if at most 2 KB were unread on that socket when it arrived (far below any receive buffer); otherwise it may be dropped whole"],
+    hang_is_violation=True,
+    level_text="seeded search over arrival/read/close histories and interleavings; every Read result equals the payload of exactly one not-yet-returned "
+               "arrival to that socket, in arrival order, with the true source address and port; skipped arrivals were dropped whole; nothing that arrived "
+               "after Shutdown(Read) is returned; every successful Write produced exactly one packet carrying exactly those bytes to the right destination "
+               "(lengths and checksums verified by the C06 monitor), a failed one none; evidence, not proof",
+    level_note="the RFC 768/8200 rule that a computed checksum of zero is sent as 0xFFFF is counted (udp_zero_checksum_sent_as_zero), not gated: it verifies "
+               "arithmetically and the statement does not mention it",
+)
+
 PENDING = "check not built yet (work in progress; will be claimed once its simulation exists)"
 NOT_APPLICABLE = {
     "C15": "pure functions of their input (header codecs, RFC 1071 checksum): no schedule, clock, fault, I/O or second party for a simulator to control; "
